@@ -271,6 +271,15 @@ BindCases == {b \in Binds : /\ (IsMc(b.c) <=> (b.p \in {"defm", "multiclass-pare
                              /\ (b.n > 0 => b.angle) /\ b.n <= Len(Params[b.c]) + 1
                              /\ (b.p = "class-value" => b.angle)}
 
+(* named template arguments (name = value, in any order, after the positional ones): P2<int a, string b = "d">, M2 likewise *)
+NamedArgs == {
+  [args |-> "a = 1", verdict |-> "ok"], [args |-> "a = 1, b = \"x\"", verdict |-> "ok"], [args |-> "1, b = \"x\"", verdict |-> "ok"],
+  [args |-> "b = \"x\", a = vInt", verdict |-> "ok"], [args |-> "a = !add(1, 0)", verdict |-> "ok"],
+  [args |-> "b = \"x\"", verdict |-> "missing"], [args |-> "a = \"s\"", verdict |-> "type"], [args |-> "1, b = 2", verdict |-> "type"] }
+NamedBinds == {[p |-> bp.p, pre |-> bp.pre, post |-> bp.post, c |-> c, ref |-> c \o "<" \o na.args \o ">", args |-> na.args, verdict |-> na.verdict] :
+                 bp \in {x \in BindPositions : x.p \in {"def-parent", "class-value", "defm"}}, c \in {"P2", "M2"}, na \in NamedArgs}
+NamedCases == {b \in NamedBinds : IsMc(b.c) <=> (b.p = "defm")}
+
 (* names that must resolve: the defined variant is part of fault-free programs, the undefined one is a seeded fault *)
 NameSlot(s, pre, post, ok, bad) == [s |-> s, pre |-> pre, post |-> post, ok |-> ok, bad |-> bad]
 NameSlots == {
@@ -362,6 +371,7 @@ Next == /\ ~done
            THEN /\ \A sl \in Slots : PrintT("@@" \o ToJson([k |-> "slot"] @@ sl))
                 /\ \A w \in Wrappers : PrintT("@@" \o ToJson([k |-> "wrapper"] @@ w))
                 /\ \A b \in BindCases : PrintT("@@" \o ToJson([k |-> "bind"] @@ b))
+                /\ \A nb \in NamedCases : PrintT("@@" \o ToJson([kk |-> "named"] @@ nb))
                 /\ \A ns \in NameSlots : PrintT("@@" \o ToJson([k |-> "name"] @@ ns))
                 /\ PrintT("@@" \o ToJson([k |-> "syntax", deletable |-> Deletable, insertable |-> Insertable]))
                 /\ \A sc \in ShadowCases : PrintT("@@" \o ToJson([kk |-> "shadow"] @@ sc))
